@@ -4,6 +4,7 @@ import (
 	"context"
 	"encoding/json"
 	"fmt"
+	"sync"
 	"time"
 
 	"github.com/samsarahq/go/oops"
@@ -93,10 +94,23 @@ func ExecuteRequest(ctx context.Context, req *thunderpb.ExecuteRequest, gqlSchem
 
 	// We're using `reactive.NewRerunner` to ensure that the reactive cache is set up correctly,
 	// but we won't actually wait for the query to rerun if invalidated.
+	//
+	// The rerunner never invokes the function if ctx is cancelled before the
+	// first run, so waiting for the function alone could block forever. Once the
+	// function has started it is waited for, because it sets the results.
+	var mu sync.Mutex
+	started, abandoned := false, false
 	done := make(chan struct{})
 	var queryResponse *thunderpb.ExecuteResponse
 	var queryError error
 	rerunner := reactive.NewRerunner(ctx, func(ctx context.Context) (ret interface{}, err error) {
+		mu.Lock()
+		if started || abandoned {
+			mu.Unlock()
+			return nil, context.Canceled
+		}
+		started = true
+		mu.Unlock()
 		defer func() {
 			queryResponse, _ = ret.(*thunderpb.ExecuteResponse)
 			queryError = err
@@ -118,7 +132,20 @@ func ExecuteRequest(ctx context.Context, req *thunderpb.ExecuteRequest, gqlSchem
 		}, nil
 	}, time.Hour, false)
 
-	<-done
+	select {
+	case <-done:
+	case <-ctx.Done():
+		mu.Lock()
+		if started {
+			mu.Unlock()
+			<-done
+		} else {
+			abandoned = true
+			mu.Unlock()
+			rerunner.Stop()
+			return nil, ctx.Err()
+		}
+	}
 
 	rerunner.Stop()
 	return queryResponse, queryError
